@@ -408,6 +408,11 @@ def runUnknown (c : Call) (chunks : List Nat) (keys : List Key) (vals : List Val
   let comb := groupedCombine c.R c.eng c.sort
   let top := treeReduce comb c.splitEvery blocks
   let x := comb top
-  finalizeResults c.R x none false
+  match finalizeResults c.R x none false with
+  | .error e => .error e
+  | .ok (gs, vs) =>
+    -- `_aggregate`: the NaN placeholder label of all-missing blocks is not a group
+    let keep := (gs.zip vs).filter fun p => p.1.isSome
+    .ok (keep.map (·.1), keep.map (·.2))
 
 end Flox
